@@ -409,7 +409,16 @@ def single_thread_prefetch(
         thread.join()
 
     if exc_info is not None:
-        raise exc_info[1].with_traceback(exc_info[2])
+        try:
+            raise exc_info[1].with_traceback(exc_info[2])
+        finally:
+            # Break the reference cycle
+            #     exc_info -> traceback -> frame of worker -> exc_info.
+            # Otherwise the frames in the traceback (and with them e.g. the
+            # suspended iterators and threads of other prefetches inside the
+            # generator) stay alive until the garbage collector runs, even
+            # when the caller has handled and released the exception.
+            exc_info = None
 
 
 if __name__ == '__main__':
